@@ -135,6 +135,11 @@ func ArrayToAppendAction() RewriteAction {
 		if newFirstAssignment.Value.Argument != nil {
 			newFirstAssignment.Value.Argument.Name = newFirstArg.Name
 			newFirstAssignment.Value.Argument.Type = newFirstArg.Type
+
+			// the argument is now a single item of the list: its constraints have to be checked
+			if newFirstArg.Type.IsScalar() {
+				ast.WithTypeConstraints(newFirstArg.Type.AsScalar().Constraints)(&newFirstAssignment)
+			}
 		}
 
 		newOpt := option
@@ -247,6 +252,11 @@ func MapToIndexAction() RewriteAction {
 		if newFirstAssignment.Value.Argument != nil {
 			newFirstAssignment.Value.Argument.Name = newSecondArg.Name
 			newFirstAssignment.Value.Argument.Type = newSecondArg.Type
+
+			// the argument is now a single value of the map: its constraints have to be checked
+			if newSecondArg.Type.IsScalar() {
+				ast.WithTypeConstraints(newSecondArg.Type.AsScalar().Constraints)(&newFirstAssignment)
+			}
 		}
 
 		newOpt := option
